@@ -44,11 +44,19 @@ pub enum EStep {
     OtherPolicy { p: PolicySpec },
     Tick { dt: u64 },
     Await,
+    /// import a capability for the (open) document: a write capability upgrades a read-only one
+    Import { write: bool },
+    /// one more handle on the open document (without a subscriber), and its release
+    OpenAgain,
+    CloseExtra,
 }
 
 #[derive(Serialize, Deserialize, Clone, Debug)]
 pub struct EventsPlan {
     pub seed: u64,
+    /// the document starts with a read-only capability (local writes fail until an upgrade)
+    #[serde(default)]
+    pub start_read_only: bool,
     pub steps: Vec<EStep>,
 }
 
@@ -101,6 +109,9 @@ impl Scenario for Events {
         let mut subs = 0u8;
         // half of the runs have traffic on a neighbouring document as well
         let other = rng.chance(1, 2);
+        // a third of the runs: capability imports on the open document, additional handles
+        let handles = rng.chance(1, 3);
+        let start_read_only = handles && rng.chance(1, 2);
         for _ in 0..rng.urange(0, 2) {
             steps.push(EStep::Subscribe { cap: *rng.pick(&[1u8, 1, 2, 4, 32]), via_open: rng.chance(1, 2) });
             subs += 1;
@@ -127,6 +138,11 @@ impl Scenario for Events {
                     EStep::Message { es, status: rng.below(3) as u8, peer: rng.below(3) as u8, bad }
                 }
                 32 | 33 => EStep::SetPolicy { p: gen_policy(rng) },
+                38 if handles => match rng.below(4) {
+                    0 | 1 => EStep::Import { write: rng.chance(2, 3) },
+                    2 => EStep::OpenAgain,
+                    _ => EStep::CloseExtra,
+                },
                 36 | 37 if other => match rng.below(4) {
                     0 => EStep::OtherLocal { a: rng.below(2) as u8, k: key(rng), c: rng.range(1, 3) as u8 },
                     1 => EStep::OtherPolicy { p: gen_policy(rng) },
@@ -139,7 +155,7 @@ impl Scenario for Events {
             steps.push(s);
         }
         steps.push(EStep::Await);
-        EventsPlan { seed: rng.next_u64(), steps }
+        EventsPlan { seed: rng.next_u64(), start_read_only, steps }
     }
 
     fn exec(&self, plan: &EventsPlan, cx: &mut Cx) -> Res {
@@ -147,7 +163,7 @@ impl Scenario for Events {
     }
 
     fn shrink(&self, plan: &EventsPlan) -> Vec<EventsPlan> {
-        shrink_vec(&plan.steps).into_iter().map(|c| EventsPlan { seed: plan.seed, steps: c }).collect()
+        shrink_vec(&plan.steps).into_iter().map(|c| EventsPlan { seed: plan.seed, start_read_only: plan.start_read_only, steps: c }).collect()
     }
 
     fn components(&self) -> (Vec<&'static str>, Vec<&'static str>) {
@@ -158,7 +174,7 @@ impl Scenario for Events {
     }
 
     fn rule(&self) -> String {
-        "A run is 4-45 steps on one document (in half of the runs a neighbouring document of the same store, with its own subscriber and policy, takes remote and local writes and policy changes in between and is judged the same way): subscribe (channel capacity 1-32, via open or subscribe), unsubscribe, drop a receiver (also while the actor is blocked sending to it), pause/resume/drain, local inserts and deletions, valid/superseded/badly-signed remote inserts, reconciliation messages of 1-4 entries (optionally one forged) interleaved with local writes, policy changes, clock ticks. Non-trivial: a receiver was dropped/unsubscribed/paused, the actor blocked on a full channel, or an entry was rejected.".into()
+        "A run is 4-45 steps on one document (in half of the runs a neighbouring document of the same store, with its own subscriber and policy, takes remote and local writes and policy changes in between and is judged the same way): subscribe (channel capacity 1-32, via open or subscribe), unsubscribe, drop a receiver (also while the actor is blocked sending to it), pause/resume/drain, local inserts and deletions, valid/superseded/badly-signed remote inserts, reconciliation messages of 1-4 entries (optionally one forged) interleaved with local writes, policy changes, clock ticks; in a third of the runs capability imports on the open document (which may start read-only, so that a write capability is an upgrade) and additional handles that are opened and released. Non-trivial: a receiver was dropped/unsubscribed/paused, the actor blocked on a full channel, or an entry was rejected.".into()
     }
 }
 
@@ -244,7 +260,11 @@ async fn run(plan: &EventsPlan, cx: &mut Cx, only_download: bool) -> Res {
     let w = world();
     let ns = w.doc_id(0);
     let mut sut = Sut::new(Backend::Mem)?;
-    ensure_doc(sut.store(), 0)?;
+    if plan.start_read_only {
+        sut.store().import_namespace(iroh_docs::Capability::Read(ns)).map_err(|e| harness(format!("{e:#}")))?;
+    } else {
+        ensure_doc(sut.store(), 0)?;
+    }
     ensure_doc(sut.store(), 1)?;
     for a in 0..2 {
         sut.store().import_author(w.authors[a].clone()).map_err(|e| harness(format!("{e:#}")))?;
@@ -256,6 +276,8 @@ async fn run(plan: &EventsPlan, cx: &mut Cx, only_download: bool) -> Res {
     h.open(ns, OpenOpts::default().sync()).await.map_err(|e| harness(format!("open: {e:#}")))?;
 
     let mut model = RefDoc::default();
+    let mut can_write = !plan.start_read_only;
+    let mut extra_handles = 0u32;
     let mut policy: Option<PolicySpec> = None;
     let mut applied: Vec<Applied> = Vec::new();
     let mut subs: Vec<Sub> = Vec::new();
@@ -423,9 +445,11 @@ async fn run(plan: &EventsPlan, cx: &mut Cx, only_download: bool) -> Res {
             }
             EStep::LocalInsert { a, k, c } => {
                 let e = Ent { d: 0, a: *a, k: k.clone(), ts: clock, c: *c };
-                let ok = model.offer(&e).is_some();
+                let ok = can_write && model.offer(&e).is_some();
                 if ok {
                     applied.push(Applied { entry: e.signed(), local: true, from: [0; 32], status: 0, download: true });
+                } else if !can_write {
+                    cx.probe("local_write_refused_read_only");
                 } else {
                     cx.probe("rejected_superseded");
                 }
@@ -439,9 +463,11 @@ async fn run(plan: &EventsPlan, cx: &mut Cx, only_download: bool) -> Res {
             }
             EStep::LocalDelete { a, k } => {
                 let e = Ent { d: 0, a: *a, k: k.clone(), ts: clock, c: 0 };
-                let ok = model.offer(&e).is_some();
+                let ok = can_write && model.offer(&e).is_some();
                 if ok {
                     applied.push(Applied { entry: e.signed(), local: true, from: [0; 32], status: 0, download: true });
+                } else if !can_write {
+                    cx.probe("local_write_refused_read_only");
                 } else {
                     cx.probe("rejected_superseded");
                 }
@@ -590,6 +616,44 @@ async fn run(plan: &EventsPlan, cx: &mut Cx, only_download: bool) -> Res {
                     }
                     _ => unreachable!(),
                 }
+            }
+            EStep::Import { write } => {
+                let cap = if *write { iroh_docs::Capability::Write(w.docs[0].clone()) } else { iroh_docs::Capability::Read(ns) };
+                let h2 = h.clone();
+                let mut fut: PendFut = Box::pin(async move { h2.import_namespace(cap).await.map(|_| ()).map_err(|e| format!("{e:#}")) });
+                let _ = poll_once(&mut fut);
+                pending.push(("import-capability".into(), fut, Some(true)));
+                if *write && !can_write {
+                    can_write = true;
+                    cx.probe("capability_upgraded_while_open_and_subscribed");
+                }
+                cx.ev("import", format!("write={write}"));
+            }
+            EStep::OpenAgain => {
+                let h2 = h.clone();
+                let mut fut: PendFut = Box::pin(async move { h2.open(ns, OpenOpts::default()).await.map_err(|e| format!("{e:#}")) });
+                let _ = poll_once(&mut fut);
+                pending.push(("open-again".into(), fut, Some(true)));
+                extra_handles += 1;
+                cx.ev("open-again", String::new());
+            }
+            EStep::CloseExtra => {
+                if extra_handles == 0 {
+                    continue;
+                }
+                extra_handles -= 1;
+                let h2 = h.clone();
+                let mut fut: PendFut = Box::pin(async move {
+                    match h2.close(ns).await {
+                        Ok(false) => Ok(()),
+                        Ok(true) => Err("close of one of several handles reported the document closed".to_string()),
+                        Err(e) => Err(format!("{e:#}")),
+                    }
+                });
+                let _ = poll_once(&mut fut);
+                pending.push(("close-extra".into(), fut, Some(true)));
+                cx.probe("extra_handle_released_with_subscribers");
+                cx.ev("close-extra", String::new());
             }
             EStep::Tick { dt } => {
                 // a tick must not overtake requests already queued (they read the clock when processed)
